@@ -108,7 +108,8 @@ def gen_utccmp(rng, n):
 def gen_nanos(rng, n):
     G = 10**9
     anchors = [0, G, -G, 2 * G, -2 * G, 3 * G, -3 * G, I64MIN * G, I64MAX * G, (I64MAX + 1) * G, (I64MIN - 1) * G, MINT * G, MAXT * G + G - 1,
-               -2**127, 2**127 - 1]
+               -2**127, 2**127 - 1,
+               2**63, -2**63, 2**64, -2**64, 2**31 * G, -2**31 * G, 2**32 * G, 2**53, -2**53]       # word-size ends of the COUNT (not of the seconds)
     for _ in range(n):
         k = rng.random()
         if k < 0.35:
@@ -559,6 +560,16 @@ def gen_nanos_zone(rng, nz):
             for d in (-1, 0, 1):
                 for frac in (0, 1, G // 2, G - 1):
                     yield {"op": "fromnanos", "a": {"N": W((t + d) * G + frac), "via": "zone", "type": {"off": 0, "dst": 0, "des": []}}}
+    # counts at the ends of the supported range through fixed-offset zones: the local reading, not the instant, must be representable
+    for _ in range(max(6, nz // 4)):
+        off = rng.choice([1, -1, 3600, -3600, 86399, -86399, rng.randint(-90000, 90000)])
+        yield zone_event({"tr": [], "ty": [{"off": off, "dst": 0, "des": B("ABC")}], "lp": [], "rule": {"k": "none"}})
+        for edge in (MINT, MAXT):
+            for d in sorted({0, 1, -1, -off, -off - 1, -off + 1, off, rng.randint(-100000, 100000)}):
+                for frac in (0, G - 1):
+                    yield {"op": "fromnanos", "a": {"N": W((edge + d) * G + frac), "via": "zone", "type": {"off": 0, "dst": 0, "des": []}}}
+        for N in (2**63 - 1, 2**63, 2**63 + G, -2**63, -2**63 - 1):
+            yield {"op": "fromnanos", "a": {"N": W(N), "via": "zone", "type": {"off": 0, "dst": 0, "des": []}}}
 
 
 def gen_ns_validation(rng, n):
@@ -894,14 +905,25 @@ def gen_render(rng, n):
     for _ in range(n):
         off = rng.choice([rng.choice(offs), rng.randint(I32MIN + 1, I32MAX), rng.randint(-100000, 100000), rng.randint(-70, 70)])
         k = rng.random()
+        # a third of the local types carry a designation and a DST flag (they must not influence the text), zero offset included
+        named = {"dst": rng.randint(0, 1), "des": B(rng.choice(["GMT", "WET", "+00", "BST", "UTC", "-00", "ABCDEFG"]))} if rng.random() < 0.33 and off != I32MIN else {}
+        if named and rng.random() < 0.4:
+            off = rng.choice([0, 0, 1, -1, 59, -59])
         if k < 0.5:
             t = interesting_instant(rng)
-            yield {"op": "rendert", "a": {"t": W(t), "ns": rng.choice([0, 1, 999999999, 100000000, rng.randint(0, 999999999)]), "off": off}}
+            yield {"op": "rendert", "a": dict({"t": W(t), "ns": rng.choice([0, 1, 999999999, 100000000, rng.randint(0, 999999999)]), "off": off}, **named)}
+        elif k < 0.53:
+            # the last and first representable local readings: year i32::MAX Dec 31 (second 60 included), year i32::MIN Jan 1
+            f = rng.choice([{"y": I32MAX, "mo": 12, "d": 31, "h": 23, "mi": 59, "s": rng.choice([58, 59, 60, 60])}, {"y": I32MIN, "mo": 1, "d": 1, "h": 0, "mi": 0, "s": rng.choice([0, 1])}])
+            f["ns"] = rng.choice([0, 999999999])
+            f["off"] = rng.choice([1, 60, 3600, 86400, -1, -3600, off])
+            f["via"] = "dtnew"
+            yield {"op": "render", "a": dict(f, **named)}
         else:
             f = rand_fields(rng, 0.9)
             f["off"] = off
             f["via"] = rng.choice(["utc", "dtnew", "dtnew"])
-            yield {"op": "render", "a": f}
+            yield {"op": "render", "a": dict(f, **named) if f["via"] == "dtnew" else f}
 
 
 # ---- C09 ----
@@ -1061,6 +1083,86 @@ def gen_corpus_mutations(rng, files, per_file):
 
 
 # ---- C20 ----
+def synth_tzif(rng):
+    """A well-formed TZif file built field by field, aimed at the shapes the corpus does not have: designation tables longer
+    than 256 bytes with names ending beyond byte 255, shared suffixes, up to 200 types, v2+/v3 files whose 32-bit block is
+    size-consistent but would not be a valid zone of its own (it must be ignored), all indicator combinations, leap tables."""
+    ver = rng.choice([0, 0x32, 0x32, 0x33])
+    # designation table
+    names = []
+    nnames = rng.choice([1, 2, 3, 6, 40, 60])
+    alphabet = b"ABCDEFGHIJKLMNOPQRSTUVWXYZabcdefghijklmnopqrstuvwxyz0123456789+-"
+    for _ in range(nnames):
+        names.append(bytes(rng.choice(alphabet) for _ in range(rng.randint(3, 7))))
+    tab = b"".join(n + b"\0" for n in names)
+    starts = []
+    pos = 0
+    for n in names:
+        for k in range(0, len(n) - 2):          # a suffix of length >= 3 is a designation too
+            if pos + k <= 255:
+                starts.append(pos + k)
+        pos += len(n) + 1
+    late = [i for i in starts if any(i <= 255 < i + 3 + d for d in range(5)) or i >= 248]
+    ntypes = rng.choice([1, 2, 3, 5, 30, 200]) if len(starts) > 3 else rng.randint(1, 3)
+    types = []
+    for _ in range(ntypes):
+        idx = rng.choice(late) if late and rng.random() < 0.3 else rng.choice(starts)
+        types.append((rng.choice([0, 3600, -18000, 34200, -1, 1, rng.randint(-90000, 90000)]), rng.randint(0, 1), idx))
+    ntr = rng.choice([0, 1, 2, 5, 17, 40])
+    def times(lo, hi, n):
+        return sorted(rng.sample(range(lo, hi), n))
+    t64 = times(-2**40, 2**40, ntr) if rng.random() < 0.7 else times(-2**31, 2**31 - 1, ntr)
+    idxs = [rng.randrange(ntypes) for _ in range(ntr)]
+    leaps = []
+    if rng.random() < 0.3:
+        t, c = rng.randint(0, 10**8), 0
+        for _ in range(rng.randint(1, 4)):
+            c += rng.choice([1, 1, -1])
+            if c == 0 and not leaps:
+                c = 1
+            leaps.append((t, c))
+            t += rng.randint(2419199, 10**8)
+    ind = rng.choice(["none", "std", "both", "zero"])
+    isstd = bytes(rng.randint(0, 1) for _ in range(ntypes)) if ind in ("std", "both") else (bytes(ntypes) if ind == "zero" else b"")
+    isut = bytes((isstd[i] and rng.randint(0, 1)) for i in range(ntypes)) if ind == "both" else (bytes(ntypes) if ind == "zero" else b"")
+    def block(tsz, ts, ixs, tys, lp, v):
+        h = b"TZif" + bytes([v]) + bytes(15) + struct.pack(">6I", len(isut), len(isstd), len(lp), len(ts), len(tys), len(tab))
+        b = b"".join(struct.pack(">i" if tsz == 4 else ">q", t) for t in ts) + bytes(ixs)
+        b += b"".join(struct.pack(">iBB", o, d, i) for (o, d, i) in tys) + tab
+        b += b"".join(struct.pack(">ii" if tsz == 4 else ">qi", t, c) for (t, c) in lp) + isstd + isut
+        return h + b
+    if ver == 0:
+        t32 = times(-2**31, 2**31 - 1, ntr)
+        l32 = [(t, c) for (t, c) in leaps if t < 2**31]
+        return block(4, t32, idxs, types, l32, 0)
+    # the 32-bit block of a version 2+ file: same counts, contents that need not be a valid zone (clamped equal times, indices out of range)
+    k = rng.random()
+    if k < 0.4:
+        t32 = [max(-2**31, min(2**31 - 1, t)) for t in t64]          # clamping can make times equal: not strictly increasing
+        ix32 = idxs
+    elif k < 0.7:
+        t32 = sorted(rng.randint(-2**31, 2**31 - 1) for _ in range(ntr))
+        ix32 = [rng.randrange(256) for _ in range(ntr)]
+    else:
+        t32 = times(-2**31, 2**31 - 1, ntr)
+        ix32 = idxs
+    l32 = [(max(-2**31, min(2**31 - 1, t)), c) for (t, c) in leaps]
+    footer = b""
+    if ntr == 0 or rng.random() < 0.5:
+        footer = b""
+    out = block(4, t32, ix32, types, l32, ver) + block(8, t64, idxs, types, leaps, ver) + b"\n" + footer + b"\n"
+    return out
+
+
+def gen_synth_files(rng, n):
+    for _ in range(n):
+        data = synth_tzif(rng)
+        yield {"op": "tzif", "a": {"bytes": list(data)}, "g": 1}
+        if rng.random() < 0.3:
+            for _ in range(2):
+                yield {"op": "tzif", "a": {"bytes": list(mutate_file(rng, data))}, "g": 1}
+
+
 def tiny_tzif(rng):
     """a valid little v1 file: one type"""
     off = rng.choice([0, 3600, -18000])
